@@ -1,7 +1,7 @@
 /*@harness
 {"tier":"quick","mode":"width","tus":["src/apply.c"],"include_tu":true,"dfcc":false,"functions":["apply_low","function_visible"],
  "stub_out":["find_function_by_name2"],
- "flags":["--bounds-check","--pointer-check"],"unwind":4,"timeout":600,"defines":["V_C07_SMALL_CACHE"],
+ "flags":["--bounds-check","--pointer-check"],"unwind":9,"timeout":600,"defines":["V_C07_SMALL_CACHE"],
  "expect":["h_apply_low.assertion","apply_low.pointer_dereference"],
  "native":{"rename":["strcmp"]},
  "assumptions":["find_function_by_name2 replaced by an oracle stub: it answers the fixed ghost result (G_found, G_defprog, G_index, G_fio, G_vio) - i.e. what the inheritance search finds depends only on the programs (find_function has its own harness)",
@@ -61,7 +61,7 @@ static int spec_visible(int origin, int flags) {
 
 void h_apply_low(void) {
   static program_t oprog, dprog; static object_t ob; static char fun[] = "heart_beat";
-  static compiler_function_t ftab[4]; static runtime_function_u foffs[8]; static unsigned short fflags[8];
+  static compiler_function_t ftab[4]; static runtime_function_u foffs[8]; static unsigned short fflags[8], dflags[8];
   static compressed_offset_table_t comp;
   V_FILL(main_options_t, G_opts, opts); g_main_options = &G_opts;
   V_FILL(program_t, oprog, oprog); V_FILL(program_t, dprog, dprog); V_FILL(object_t, ob, ob);
@@ -69,9 +69,11 @@ void h_apply_low(void) {
   V_DECL(v_ushort, flags); V_DECL(int, origin); V_DECL(v_ushort, addr);
   G_defprog = same_prog ? &oprog : &dprog;
   V_ASSUME(0 <= idx && idx < 4 && 0 <= fio && fio < 4 && 0 <= ridx && ridx < 4 && vio >= 0 && vio < 100);
+  V_ASSUME(!same_prog || (fio == 0 && vio == 0));      /* a function defined in the object's own program has no inherit offsets */
   V_ASSUME(origin == 0 || origin == ORIGIN_DRIVER || origin == ORIGIN_LOCAL || origin == ORIGIN_CALL_OTHER || origin == ORIGIN_CALL_OUT);
   comp.first_defined = 0; comp.num_deleted = 0;
-  oprog.function_flags = fflags; dprog.function_flags = fflags; dprog.function_table = ftab; oprog.function_table = ftab;
+  oprog.function_flags = fflags; dprog.function_flags = dflags;   /* the object's own program carries the effective flags (inherit modifiers included) */
+  for (int q = 0; q < 8; q++) { V_DECL(v_ushort, dfl); dflags[q] = dfl; } dprog.function_table = ftab; oprog.function_table = ftab;
   dprog.function_offsets = foffs; oprog.function_offsets = foffs; dprog.function_compressed = &comp; oprog.function_compressed = &comp;
   ftab[idx].name = fun; ftab[idx].runtime_index = (function_index_t)ridx; ftab[idx].address = addr;
   fflags[ridx + fio] = flags;
